@@ -11,9 +11,10 @@ git apply _mutants/$m.diff || { echo "$wt $m: diff does not apply"; exit 2; }
 go build ./... || { echo "$wt $m: BUILD FAILS"; git checkout -q -- .; exit 1; }
 if go test -count=1 -vet=off ./... > /tmp/vm-$$.log 2>&1; then suite=pass; else suite=FAIL; fi
 cp $demo $dir/zz_mutdemo_test.go
-if go test -count=1 -vet=off ./$dir > /tmp/vm-demo-$$.log 2>&1; then demo_mut=pass; else demo_mut=fail; fi
+tests=$(grep -oE '^func (Test[A-Za-z0-9_]+)' $demo | awk '{print $2}' | paste -sd'|')
+if go test -count=1 -vet=off -run "^($tests)\$" ./$dir > /tmp/vm-demo-$$.log 2>&1; then demo_mut=pass; else demo_mut=fail; fi
 git checkout -q -- .
-if go test -count=1 -vet=off ./$dir > /tmp/vm-demo2-$$.log 2>&1; then demo_clean=pass; else demo_clean=FAIL; fi
+if go test -count=1 -vet=off -run "^($tests)\$" ./$dir > /tmp/vm-demo2-$$.log 2>&1; then demo_clean=pass; else demo_clean=FAIL; fi
 rm -f $dir/zz_mutdemo_test.go
 echo "$wt $m: suite_with_mutant=$suite demo_with_mutant=$demo_mut demo_clean=$demo_clean dir=$dir"
 rm -f /tmp/vm-$$.log /tmp/vm-demo-$$.log /tmp/vm-demo2-$$.log
